@@ -4,7 +4,7 @@ import itertools
 
 from ..core import AnalysisError
 from ..cfront import strip, text
-from .. import ckern, ceval, xlayer, pyxread
+from .. import ckern, ceval, xlayer, pyxread, pq
 from ..ceval import CEval, find_all, loop_parts, body_stmts, loop_var, stores_to, mentions
 from ..formula import Canon, Ratio, Undecided, show, num
 from ..pyfront import Mod, dotted, const_value
@@ -366,14 +366,41 @@ def run(rep):
                 cols[int(off.cval())] = None
     mod = Mod(rep.repo, "stat/metrics.py")
     pf = mod.func("crps")
+    # labels: the column names given to the table and the index given to the decomposition, on the evaluated paths of crps()
+    # (module-level literal tables and private helpers take part in the evaluation)
+    from .. import pfold
+    BASE = {}
+    for n in mod.tree.body:
+        if isinstance(n, ast.Assign) and len(n.targets) == 1 and isinstance(n.targets[0], ast.Name):
+            try:
+                BASE[('sym', n.targets[0].id)] = pfold.lit(ast.literal_eval(n.value))
+            except (ValueError, SyntaxError, TypeError):
+                pass
+    lpe = pq.PEval()
+    lpe.inline = {n.name: n for n in mod.tree.body if isinstance(n, ast.FunctionDef) and n.name.startswith("_") and not n.name.startswith("__")}
     labels_tab = labels_dec = None
-    for n in ast.walk(pf):
-        if isinstance(n, ast.Assign) and isinstance(n.value, ast.List) and all(isinstance(x, ast.Constant) for x in n.value.elts):
-            vals = [x.value for x in n.value.elts]
-            if len(vals) == 7:
-                labels_tab = vals
-            if len(vals) == 5:
-                labels_dec = vals
+    for p_ in lpe.run(pf):
+        if p_.how != "return":
+            continue
+        pool = [p_.value] + [e.val for e in p_.effects if e.val is not None] + [v for v in p_.env.values() if isinstance(v, tuple)]
+        cand_t, cand_d = [], []
+        for e in p_.effects:
+            if e.kind == 'attr' and e.target.endswith(".columns"):
+                cand_t.append(e.val)
+        for x in pq.find(('tuple', tuple(pool)), lambda y: pq.call_named(y, ".DataFrame") or pq.call_named(y, ".Series")):
+            kw = pq.kw_of(x, 'columns') if pq.call_named(x, ".DataFrame") else pq.kw_of(x, 'index')
+            if kw is None and pq.call_named(x, ".Series") and len(x[2]) >= 3:
+                kw = x[2][2]
+            if kw is not None:
+                (cand_t if pq.call_named(x, ".DataFrame") else cand_d).append(kw)
+        for cands, n_ in ((cand_t, 7), (cand_d, 5)):
+            for c_ in cands:
+                f_ = pfold.fold(c_, BASE)
+                if pfold.is_lit(f_) and isinstance(f_[1], tuple) and len(f_[1]) == n_ and all(isinstance(z, str) for z in f_[1]):
+                    if n_ == 7:
+                        labels_tab = list(f_[1])
+                    else:
+                        labels_dec = list(f_[1])
 
     def rd_(a):
         return ('call', 'A:' + a, (('sym', fv),))
@@ -388,6 +415,9 @@ def run(rep):
             return cn.ratio(w) == cn.ratio(got)
         except Undecided:
             return False
+    if labels_tab is None or labels_dec is None:
+        rep.undecided("R03.b", "stat/metrics.py", "crps", "labels of the table / decomposition", "label lists not recognised on the evaluated paths", line=pf.lineno)
+        return EXPLANATION
     okc = labels_tab is not None and len(cols) == 7 and all(same(l, cols.get(i)) for i, l in enumerate(labels_tab))
     rep.check(okc, "R03.b", "stat/metrics.py", "crps", "table columns labelled in the kernel's store order",
               f"kernel stores {[show(cols[i]) if cols.get(i) is not None else None for i in range(7)]}, labels {labels_tab}", line=pf.lineno)
@@ -414,34 +444,57 @@ def run(rep):
     ck = mod.funcs.get("__check_ensemble_data")
     if ck is None:
         raise AnalysisError("stat/metrics.py: __check_ensemble_data not found")
-    masks = {}
-    for n in ck.body:
-        if isinstance(n, ast.Assign) and isinstance(n.targets[0], ast.Name):
-            masks.setdefault(n.targets[0].id, []).append(n.value)
-    filt = {}
-    for n in ck.body:
-        if isinstance(n, ast.Assign) and isinstance(n.targets[0], ast.Name) and isinstance(n.value, ast.Subscript) and \
-                isinstance(n.value.value, ast.Name) and n.value.value.id == n.targets[0].id:
-            sl = n.value.slice
-            m = sl.id if isinstance(sl, ast.Name) else (sl.elts[0].id if isinstance(sl, ast.Tuple) and isinstance(sl.elts[0], ast.Name) else None)
-            filt[n.targets[0].id] = m
-    same = "obs" in filt and "ens" in filt and filt["obs"] == filt["ens"] and filt["obs"] is not None
-    rep.check(same, "R03.e", "stat/metrics.py", "__check_ensemble_data", "obs and ens are filtered by the same mask", f"{filt}", line=ck.lineno)
-    implies = False
-    if same:
-        defs = masks.get(filt["obs"], [])
-        # the mask is a conjunction one of whose factors is notnull(obs) / ~isnull(obs) / isfinite(obs)
-        def factors(e):
-            if isinstance(e, ast.BinOp) and isinstance(e.op, ast.BitAnd):
-                return factors(e.left) + factors(e.right)
-            return [e]
-        fs = []
-        for d in defs:
-            fs += [f for f in factors(d) if not (isinstance(f, ast.Name) and f.id == filt["obs"])]
-        txt = [ast.unparse(f).replace(" ", "") for f in fs]
-        implies = any(t in ("pd.notnull(obs)", "~pd.isnull(obs)", "np.isfinite(obs)", "~np.isnan(obs)", "pd.notna(obs)") for t in txt)
-    rep.check(implies, "R03.e", "stat/metrics.py", "__check_ensemble_data", "the mask is a conjunction containing notnull(obs): forecasts with a missing observation are dropped",
-              "", line=ck.lineno)
+    # decided on the evaluated returning paths: both series are filtered by row selectors whose masks have the same truth table, and
+    # that table keeps a row only when its observation is valid
+    cpaths = [p_ for p_ in pq.PEval().run(ck) if p_.how == "return"]
+    if not cpaths:
+        raise AnalysisError("stat/metrics.py: __check_ensemble_data: no returning path")
+
+    def series_of(x):
+        mo = pq.mentions(x, lambda e: e == ('sym', 'obs'))
+        me = pq.mentions(x, lambda e: e == ('sym', 'ens'))
+        if mo and not me:
+            return "obs"
+        if me and not mo:
+            return "ens"
+        return None
+    oksame = okimp = True
+    dsame = dimp = ""
+    und = None
+    layout_bad = []
+    for p_ in cpaths:
+        v = p_.value
+        if not (v[0] == 'tuple' and len(v[1]) >= 2 and all(pq.call_named(x, "getitem") for x in v[1][:2])):
+            # a path that hands the converted input on unfiltered: the 2-D ensemble keeps the caller's memory layout (astype / atleast_2d /
+            # asarray preserve it) and the typed memoryview of the shim rejects a transposed or Fortran-ordered array
+            if v[0] == 'tuple' and len(v[1]) >= 2:
+                e_ = v[1][1]
+                while pq.call_named(e_, "astype") or pq.call_named(e_, "atleast_2d") or pq.call_named(e_, "asarray") or pq.call_named(e_, "array") \
+                        or pq.call_named(e_, "atleast_1d") or pq.call_named(e_, "float64"):
+                    e_ = e_[2][0]
+                if e_ == ('sym', 'ens'):
+                    layout_bad.append(p_)
+                    continue
+            und = "returned series are not row selections of the inputs"
+            continue
+        mo, me = pq.selector_mask(v[1][0][2][1]), pq.selector_mask(v[1][1][2][1])
+        to = pq.mask_table(mo, series_of, {"obs": 1, "ens": 2})
+        te = pq.mask_table(me, series_of, {"obs": 1, "ens": 2})
+        if any(x is None for x in to.values()) or any(x is None for x in te.values()):
+            und = f"mask outside the valid / missing vocabulary: {show(mo)[:80]}"
+            continue
+        if to != te:
+            oksame, dsame = False, f"obs filtered by {show(mo)[:70]}, ens by {show(me)[:70]}"
+        bad = [k_ for k_, val in to.items() if val and not dict(k_)[('valid', 'obs')]]
+        if bad:
+            okimp, dimp = False, f"a row with a missing observation is kept when {dict(bad[0])}"
+    rep.check(not layout_bad, "R03.e", "stat/metrics.py", "__check_ensemble_data", "the ensemble reaches the kernel as a fresh C-ordered array on every path (row selection copies)",
+              f"{len(layout_bad)} returning path(s) hand the converted input on with the caller's memory layout: a transposed / Fortran-ordered ensemble is rejected by the shim", line=ck.lineno)
+    if und:
+        rep.undecided("R03.e", "stat/metrics.py", "__check_ensemble_data", "obs and ens are filtered by the same mask", und, line=ck.lineno)
+    else:
+        rep.check(oksame, "R03.e", "stat/metrics.py", "__check_ensemble_data", "obs and ens are filtered by the same mask (equal truth tables over valid / missing)", dsame, line=ck.lineno)
+        rep.check(okimp, "R03.e", "stat/metrics.py", "__check_ensemble_data", "the mask keeps a forecast only when its observation is valid", dimp, line=ck.lineno)
     return EXPLANATION
 
 
